@@ -163,7 +163,11 @@ func applyKV(db corestore.KVStoreWithBatch, m map[string]string, op kvOp) string
 			if err := b.Set([]byte("reuse"), []byte("x")); err == nil {
 				return "Set on a written batch succeeded"
 			}
-			if err := b.Delete(op.Batch[0].K); err == nil {
+			dk := []byte("reuse")
+			if len(op.Batch) > 0 {
+				dk = op.Batch[0].K
+			}
+			if err := b.Delete(dk); err == nil {
 				return "Delete on a written batch succeeded"
 			}
 			if err := b.Write(); err == nil {
@@ -362,6 +366,7 @@ func kvAlphabet() (sigma [][]byte, ops []kvOp) {
 	}
 	ops = append(ops, kvOp{Kind: "batch", Batch: nil})
 	ops = append(ops, kvOp{Kind: "reuse", Batch: []kvOp{single[0], single[3]}})
+	ops = append(ops, kvOp{Kind: "reuse", Batch: nil}) // also a batch that was written while empty is spent
 	ops = append(ops, kvOp{Kind: "batch", Batch: []kvOp{single[0], single[1], single[0]}})
 	return
 }
